@@ -66,7 +66,7 @@ fn arg(args: &[String], name: &str) -> Option<String> {
     args.iter().position(|a| a == name).and_then(|i| args.get(i + 1).cloned())
 }
 
-const OP_TIMEOUT: Duration = Duration::from_secs(4);
+const OP_TIMEOUT: Duration = Duration::from_secs(2);
 
 fn main() {
     std::panic::set_hook(Box::new(|_| {}));
